@@ -4,6 +4,7 @@ import (
 	"bytes"
 	"encoding/json"
 	"fmt"
+	"strings"
 
 	log "github.com/go-spring/log"
 	"pgregory.net/rapid"
@@ -28,11 +29,16 @@ func (c12) Decode(raw json.RawMessage) (any, error) {
 
 func (c12) Gen(rt *rapid.T, thorough bool) any {
 	s := genAsyncBase(rt, thorough)
-	s.Kind = rapid.SampledFrom([]string{"AsyncLogger", "AsyncLogger", "Logger", "Console", "File"}).Draw(rt, "kind")
-	if s.Kind == "Console" || s.Kind == "File" {
+	s.Kind = rapid.SampledFrom([]string{"AsyncLogger", "AsyncLogger", "Logger", "Console", "File", "RollingFile"}).Draw(rt, "kind")
+	if s.Kind == "Console" || s.Kind == "File" || s.Kind == "RollingFile" {
 		s.Via = "refresh"
 		s.Refs = nil
 		s.LLayout = ""
+	}
+	if s.Kind == "RollingFile" {
+		s.Separate = rapid.Bool().Draw(rt, "separate12")
+		s.RAsync = rapid.Bool().Draw(rt, "rasync12")
+		s.Policy = "Block"
 	}
 	// level settings of references must not matter for raw writes
 	for i := range s.Refs {
@@ -124,6 +130,13 @@ func runC12Refresh(x *Exec, s *AsyncScn) {
 		}
 	case "File":
 		lg.FileDir, lg.FileName = "/logs", "named.log"
+		spec.Apps = append(spec.Apps, AppSpec{Name: "unused", Type: "Discard"})
+	case "RollingFile":
+		lg.FileDir, lg.FileName, lg.Rotation = "/logs", "rf.log", "h"
+		lg.Separate, lg.Async = s.Separate, s.RAsync
+		if s.RAsync {
+			lg.BufferSize, lg.Policy = s.BufferSize, s.Policy
+		}
 		spec.Apps = append(spec.Apps, AppSpec{Name: "unused", Type: "Discard"})
 	case "Console":
 		spec.Apps = append(spec.Apps, AppSpec{Name: "unused", Type: "Discard"})
@@ -262,6 +275,21 @@ func runC12Writers(x *Exec, s *AsyncScn, sys *asyncSys, write func([]byte) (int,
 		sinks, names = append(sinks, seq), append(names, "stdout")
 	case "File":
 		sinks, names = append(sinks, fileWrites(x, "/logs/named.log")), append(names, "/logs/named.log")
+	case "RollingFile":
+		// raw bytes carry no level: they belong in the normal file AND, with separate=true, in the .wf file
+		var normal, wf [][]byte
+		for _, e := range x.FS.List("/logs") {
+			switch {
+			case strings.HasPrefix(e.Name, "rf.log.wf."):
+				wf = append(wf, fileWrites(x, "/logs/"+e.Name)...)
+			case strings.HasPrefix(e.Name, "rf.log."):
+				normal = append(normal, fileWrites(x, "/logs/"+e.Name)...)
+			}
+		}
+		sinks, names = append(sinks, normal), append(names, "/logs/rf.log.<ts>")
+		if s.Separate {
+			sinks, names = append(sinks, wf), append(names, "/logs/rf.log.wf.<ts>")
+		}
 	default:
 		for i, r := range sys.recs {
 			var seq [][]byte
@@ -327,7 +355,7 @@ func runC12Writers(x *Exec, s *AsyncScn, sys *asyncSys, write func([]byte) (int,
 			o.violate("raw-mismatch", "C12/raw-write-"+kind+"/"+s.Kind, "%s received %q which is %s", names[si], short(string(got), 120), kind)
 			break
 		}
-		if emptiesGot != emptiesWant && s.Kind != "File" { // an empty write leaves no trace in a file
+		if emptiesGot != emptiesWant && s.Kind != "File" && s.Kind != "RollingFile" { // an empty write leaves no trace in a file
 			o.violate("raw-empty-count", "C12/raw-empty-write-count/"+s.Kind, "%s received %d empty writes, %d were issued", names[si], emptiesGot, emptiesWant)
 		}
 		for p := range subs {
